@@ -28,8 +28,23 @@ KERNELS_OF = {
     'C13': [('MdComparison', ['_intersect', '_intersect_array', '_compare_trajs_symmetric', '_compare_trajs_directed'])],
     'C12': [('UtilsUtils', ['find_first'])],
 }
+# array dialect (harness/np2lean.py): numpy-vectorised functions
+NP_OF = {
+    'C14': [('UtilsTests', ['is_quadratic', 'is_transition_matrix', 'is_ergodic', 'is_fuzzy_ergodic', 'ergodic_mask'])],
+    'C04': [('UtilsTests', ['is_ergodic', 'ergodic_mask']), ('MsmNorm', ['row_normalize_matrix'])],
+    'C01': [('MsmNorm', ['row_normalize_matrix'])],
+    'C03': [('StateTrajHS', ['_estimate_markov_model']), ('MsmNorm', ['row_normalize_matrix'])],
+    'C09': [('MsmTests', ['_calc_times'])],
+    'C19': [('PlotCkTest', ['_split_array'])],
+}
+for _pid, _mods in NP_OF.items():
+    KERNELS_OF.setdefault(_pid, [])
+    KERNELS_OF[_pid] = KERNELS_OF[_pid] + _mods
 SOURCE_OF = {'MsmMsm': 'msm/msm.py', 'MdCorrections': 'md/corrections.py', 'MdTimescales': 'md/timescales.py',
-             'MsmTimescales': 'msm/timescales.py', 'MdComparison': 'md/comparison.py', 'UtilsUtils': 'utils/_utils.py'}
+             'MsmTimescales': 'msm/timescales.py', 'MdComparison': 'md/comparison.py', 'UtilsUtils': 'utils/_utils.py',
+             'UtilsTests': 'utils/tests.py', 'MsmNorm': 'msm/msm.py', 'PlotCkTest': 'plot/_ck_test.py', 'MsmTests': 'msm/tests.py',
+             'StateTrajHS': 'statetraj.py'}
+ATOL = 1e-8
 G = 1 << 53
 
 
@@ -146,8 +161,79 @@ def gen_cases(module, kernel, rng, n):
                 a = rng.randint(0, n)
                 S, F = sorted(pool[:a]), sorted(pool[a:a + rng.randint(0, n - a)])
                 yield {'k': kernel, 'args': [cm, start, S, F, nd], 'draws': draws[:nd], 'ks': ks[:nd], 'floats': cum, 'mode': 'jit'}
+        elif module == 'UtilsTests':
+            m = _np_matrix(rng)
+            if m is None:
+                continue
+            atol = ATOL if rng.random() < 0.85 else rng.choice([1e-3, 0.2, 1e-10])
+            args = [_ratmat(m)] if kernel == 'is_quadratic' else [_ratmat(m), core.rat_str(atol)]
+            yield {'k': kernel, 'args': args, 'floats': m, 'atol': atol, 'mode': 'py'}
+        elif module == 'MsmNorm':
+            r_, c_ = rng.randint(1, 5), rng.randint(1, 5)
+            kind = rng.random()
+            if kind < 0.5:
+                m = [[float(rng.choice([0, 0, 1, 2, 3, 7, 20])) for _ in range(c_)] for _ in range(r_)]
+            elif kind < 0.8:
+                m = [[rng.choice([0.0, rng.random(), -rng.random()]) for _ in range(c_)] for _ in range(r_)]
+            else:
+                m = [[float(rng.choice([-1, 0, 1])) for _ in range(c_)] for _ in range(r_)]
+            yield {'k': kernel, 'args': [_ratmat(m)], 'floats': m, 'mode': rng.choice(['jit', 'py'])}
+        elif module == 'PlotCkTest':
+            n = rng.randint(0, 24)
+            arr = sorted(rng.sample(range(-5, 60), n))
+            yield {'k': kernel, 'args': [arr, rng.choice([0, 1, 1, 2, 3, 4, 5, 6, 7, 12, 30])], 'mode': 'py'}
+        elif module == 'MsmTests':
+            yield {'k': kernel, 'args': [rng.choice([0, 1, 1, 2, 3, 4, 5, 7, 10, 25]), rng.randint(0, 80)], 'mode': 'py'}
+        elif module == 'StateTrajHS':
+            nm = rng.randint(2, 6)
+            na = rng.randint(1, min(nm, 4))
+            labels = sorted(rng.sample(range(0, 30), nm))
+            macro_labels = rng.sample(range(0, 30), na)
+            assign = [rng.randrange(na) for _ in range(nm)]
+            for a_ in range(na):
+                assign[rng.randrange(nm)] = a_ if a_ not in assign else assign[rng.randrange(nm)]
+            micro = [[rng.choice(labels) for _ in range(rng.randint(15, 60))] for _ in range(rng.randint(1, 3))]
+            lump = {l: macro_labels[assign[i]] for i, l in enumerate(labels)}
+            macro = [[lump[x] for x in t] for t in micro]
+            yield {'k': kernel, 'micro': micro, 'macro': macro, 'lag': rng.randint(1, 3), 'positive': rng.random() < 0.5,
+                   'args': None, 'mode': 'py'}
         else:
             raise core.HarnessError('genval: no generator for %s.%s' % (module, kernel))
+
+
+def _np_matrix(rng):
+    """a float matrix for the ergodicity predicates whose float evaluation is exact or far from every threshold"""
+    kind = rng.random()
+    if kind < 0.08:      # non-square / 1x1 / scalar-like
+        r_, c_ = rng.choice([(1, 1), (2, 3), (3, 2), (1, 3), (3, 1)])
+        return [[rng.choice([0.0, 0.5, 1.0]) for _ in range(c_)] for _ in range(r_)]
+    n = rng.randint(2, 6)
+    den = 4 if n <= 4 else 2          # entries k/den: every power entry is exact in floats and either 0 or > 1e-8
+    m = []
+    for _i in range(n):
+        row = [0] * n
+        mode = rng.random()
+        if mode < 0.12:
+            pass                                         # all-zero row (unvisited or trap-like)
+        elif mode < 0.3:
+            row[rng.randrange(n)] = den                  # deterministic jump / absorbing
+        else:
+            left = den
+            while left > 0:
+                k = rng.randint(1, left)
+                row[rng.randrange(n)] += k
+                left -= k
+        m.append([v / den for v in row])
+    pert = rng.random()
+    if pert < 0.1:           # clearly non-stochastic row
+        i = rng.randrange(n)
+        m[i][rng.randrange(n)] += rng.choice([0.25, -0.25, 1e-6, -1e-6, 3e-7])
+    elif pert < 0.15:        # deviation far below the tolerance
+        i = rng.randrange(n)
+        j = rng.randrange(n)
+        if m[i][j] > 0:
+            m[i][j] += rng.choice([1e-12, -1e-12])
+    return m
 
 
 def _sf(rng):
@@ -173,8 +259,28 @@ def real_one(module, case):
     import rng_inject
     modname = 'msmhelper.' + SOURCE_OF[module][:-3].replace('/', '.')
     mod = importlib.import_module(modname)
-    fn = getattr(mod, case['k'])
     k, a, mode = case['k'], case['args'], case['mode']
+    if module == 'StateTrajHS':
+        # the method is run on a real LumpedStateTraj; its inputs (object attributes, micro model, oracle answer) are
+        # reported back so that the translated function can be run on exactly the same values
+        import msmhelper as mh
+        try:
+            obj = mh.LumpedStateTraj(case['macro'], case['micro'], positive=case['positive'])
+            msm_i, _ = mh.msm.msm._estimate_markov_model(obj.microstate_index_trajs, case['lag'], obj.nmicrostates, obj.microstates)
+        except Exception as e:  # noqa
+            return {'skip': core.err_name(e)}
+        case = dict(case, _obj=obj, _msm_i=msm_i)
+        inputs = {'args': [[int(v) for v in obj.microstates], [int(v) for v in obj.states], [int(v) for v in obj.state_assignment],
+                           [int(v) for v in obj._state_assignment_idx], int(obj.nmicrostates), int(obj.nstates), bool(obj.positive),
+                           _ratmat(msm_i.tolist())]}
+        try:
+            inputs['oracle'] = {'peq': [core.rat_str(float(v)) for v in mh.msm.peq(msm_i)]}
+        except Exception:  # noqa
+            inputs['oracle'] = {}
+        fn = None
+    else:
+        inputs = None
+        fn = getattr(mod, case['k'])
     call = fn if mode == 'jit' else getattr(fn, 'py_func', fn)
 
     def arr(x):
@@ -226,6 +332,21 @@ def real_one(module, case):
             return core.rat_str(float(call(arr(a[0]), arr(a[1]), i12, i21)))
         if k == 'find_first':
             return int(call(a[0], arr(a[1])))
+        if module == 'UtilsTests':
+            mat = np.array(case['floats'], dtype=np.float64)
+            if k == 'is_quadratic':
+                return bool(call(mat))
+            res = call(mat, atol=case['atol'])
+            return [bool(v) for v in res] if k == 'ergodic_mask' else bool(res)
+        if module == 'MsmNorm':
+            res = call(np.array(case['floats'], dtype=np.float64))
+            return [[core.rat_str(float(v)) for v in row] for row in res]
+        if module == 'PlotCkTest':
+            return [[int(v) for v in ch] for ch in call(np.array(a[0], dtype=np.int64), a[1])]
+        if module == 'MsmTests':
+            return [int(v) for v in call(a[0], a[1])]
+        if module == 'StateTrajHS':
+            return [[core.rat_str(float(v)) for v in row] for row in case['_obj']._estimate_markov_model(case['_msm_i'])]
         if module == 'MsmTimescales':
             cum = (np.array(case['floats'], dtype=np.float64), np.array(a[0][1], dtype=np.int64))
             rng_inject.inject([Fraction(q, G) for q in case['ks']] + [Fraction(1, 2)] * 4)
@@ -250,11 +371,14 @@ def real_one(module, case):
         raise core.HarnessError('genval: no real runner for %s' % k)
 
     try:
-        return {'ok': run()}
+        out = {'ok': run()}
     except core.HarnessError:
         raise
     except Exception as e:  # noqa
-        return {'err': core.err_name(e)}
+        out = {'err': core.err_name(e)}
+    if inputs is not None:
+        out['inputs'] = inputs
+    return out
 
 
 def worker_main(argv):
@@ -278,6 +402,8 @@ def run_gen(module, cases):
             r['fuel'] = c['fuel']
         if 'draws' in c:
             r['draws'] = c['draws']
+        if 'oracle' in c:
+            r['oracle'] = c['oracle']
         reqs.append(r)
     data = '\n'.join(json.dumps(r, separators=(',', ':')) for r in reqs) + '\n'
     p = subprocess.run(['lake', 'env', 'lean', '--run', 'MsmVerif/Gen/%sRun.lean' % module], cwd=core.LEAN_DIR, input=data,
@@ -321,9 +447,17 @@ def same(case, real, gen):
     if 'err' in real or 'err' in gen:
         if real.get('err') == 'NotRun':
             return True
-        return real.get('err') == gen.get('err')
+        a, b = real.get('err'), gen.get('err')
+        if a and b and a.startswith('Other') and b.startswith('Other'):
+            return True
+        return a == b
     r, g = real['ok'], gen['ok']
     k = case['k']
+    if k in ('row_normalize_matrix', '_estimate_markov_model') and case.get('np'):
+        tol = Fraction(1, 10 ** 14) if k == 'row_normalize_matrix' else Fraction(1, 10 ** 8)
+        if len(r) != len(g) or any(len(x) != len(y) for x, y in zip(r, g)):
+            return False
+        return all(abs(Fraction(x) - Fraction(y)) <= tol * max(1, abs(Fraction(y))) for rr, gg in zip(r, g) for x, y in zip(rr, gg))
     if k in ('_compare_trajs_symmetric', '_compare_trajs_directed'):
         return abs(Fraction(r) - Fraction(g)) <= Fraction(1, 10 ** 12)
     if k == '_intersect_array':
@@ -342,13 +476,31 @@ def validate(pid, tier, rng, problems):
             continue
         cases = []
         for k in kernels:
-            cases.extend(gen_cases(module, k, rng, per))
+            cases.extend(gen_cases(module, k, rng, per if module != 'StateTrajHS' else max(20, per // 3)))
+        is_np = any(module == m for mods in NP_OF.values() for m, _ in mods)
+        for c in cases:
+            if is_np:
+                c['np'] = True
+        real = run_real(module, cases)
+        # functions run on real objects report the inputs they actually received (attributes, oracle answers)
+        kept_c, kept_r, skipped = [], [], 0
+        for c, r in zip(cases, real):
+            if 'skip' in r:
+                skipped += 1
+                continue
+            if 'inputs' in r:
+                c = dict(c, **r['inputs'])
+            if c.get('args') is None:
+                skipped += 1
+                continue
+            kept_c.append(c)
+            kept_r.append(r)
+        cases, real = kept_c, kept_r
         gen, err = run_gen(module, cases)
         if gen is None:
             summary[module] = {'translated': True, 'runs': False, 'error': err}
             dis.append({'kind': 'gen-driver', 'module': module, 'error': err})
             continue
-        real = run_real(module, cases)
         cnt = {}
         for c, r, g in zip(cases, real, gen):
             ent = cnt.setdefault(c['k'], {'cases': 0, 'errors': 0, 'py_mode': 0, 'disagree': 0})
@@ -359,8 +511,10 @@ def validate(pid, tier, rng, problems):
                 ent['disagree'] += 1
                 if len(dis) < 20:
                     dis.append({'kind': 'kernel', 'module': module, 'case': {x: c[x] for x in c if x not in ('floats',)},
-                                'real': r, 'translated': g})
+                                'real': {x: r[x] for x in r if x != 'inputs'}, 'translated': g})
         summary[module] = {'translated': True, 'kernels': cnt}
+        if skipped:
+            summary[module]['skipped_constructor_errors'] = skipped
     return summary, dis
 
 
